@@ -59,6 +59,10 @@ def bind(t, v, env):
     elif isinstance(t, (ast.Tuple, ast.List)) and isinstance(v, tuple) and len(t.elts) == len(v):
         for a, b in zip(t.elts, v):
             bind(a, b, env)
+    elif isinstance(t, (ast.Tuple, ast.List)) and isinstance(v, str) and not any(isinstance(e, ast.Starred) for e in t.elts):
+        # unpacking an opaque element: the k-th target is its k-th component
+        for k, a in enumerate(t.elts):
+            bind(a, "%s[%d]" % (v, k), env)
     else:
         raise NoElement("cannot destructure %s" % _text(t))
 
@@ -91,6 +95,13 @@ def element(fnode, it, env=None):
         return value(it.elt, env2)
     if isinstance(it, (ast.Attribute, ast.Name)):
         return "<%s[i]>" % _text(it)
+    if isinstance(it, ast.Subscript) and isinstance(it.slice, ast.Constant) and isinstance(it.slice.value, int):
+        # a row/component of an opaque object, itself a sequence: X[k]
+        base = it.value
+        while isinstance(base, (ast.Attribute, ast.Subscript)):
+            base = base.value
+        if isinstance(base, ast.Name):
+            return "<%s[i]>" % _text(it)
     if isinstance(it, ast.Subscript) and isinstance(it.slice, ast.Slice) and it.slice.step is None:
         # X[k:], X[k:u] : element i is X[k+i]; X[:u] : element i is X[i] (where the slice ends is
         # the caller's business, as for range)
